@@ -309,6 +309,8 @@ def I(x):
         return z3.IntVal(int(x))
     if isinstance(x, int):
         return z3.IntVal(x)
+    if isinstance(x, z3.ArithRef):
+        return x
     raise Unsupported("int term from %s" % type(x).__name__)
 
 
